@@ -200,3 +200,49 @@ theorem initIface_translated (ft : FieldTable) (pkgCfg : Cfg) (i : Option IfaceC
       cases es <;> simp [applyPkgEntryEffect]
 
 end Mockery.Config
+
+namespace Mockery.Config
+open Mockery.Generated
+
+/-! ### `RootConfig.Initialize`: one configured package -/
+
+structure RootEntrySt where
+  cur : Option PkgCfg
+  out : Option PkgOut
+  marked : Bool
+
+/-- (a nil `interfaces` map reads like an empty one: the model does not distinguish them) -/
+def applyRootEntryEffect (ft : FieldTable) (root : Cfg) (st : RootEntrySt) : String → RootEntrySt
+  | "pkg := new" => { st with cur := some ⟨some [], []⟩ }
+  | "store pkg" => st
+  | "pkg.config := {}" => { st with cur := st.cur.map (fun pc => { pc with config := some [] }) }
+  | "pkg.interfaces := {}" => st
+  | "merge top-level config into pkg.config" =>
+    { st with cur := st.cur.map (fun pc => { pc with config := pc.config.map (mergeConfigs ft root) }) }
+  | "initialize pkg" =>
+    { st with out := st.cur.bind (fun pc => pc.config.map (fun c =>
+        ⟨c, pc.interfaces.map (fun (n, i) => (n, initIface ft c i))⟩)) }
+  | "mark recursive" => { st with marked := true }
+  | _ => st
+
+def runRootEntry (ft : FieldTable) (root : Cfg) (p : Option PkgCfg) (effs : List String) : RootEntrySt :=
+  effs.foldl (applyRootEntryEffect ft root) ⟨p, none, false⟩
+
+def pkgConfigIsNilAtTest : Option PkgCfg → Bool
+  | none => false
+  | some pc => pc.config.isNone
+
+theorem initPkg_translated (ft : FieldTable) (root : Cfg) (p : Option PkgCfg) (interfacesNil recursive : Bool) :
+    let st := runRootEntry ft root p
+      (Merge.rootInitializeEntryEffects p.isNone (pkgConfigIsNilAtTest p) interfacesNil recursive)
+    st.out = some (initPkg ft root p) ∧ st.marked = recursive := by
+  cases p with
+  | none =>
+    cases interfacesNil <;> cases recursive <;>
+      simp [Merge.rootInitializeEntryEffects, pkgConfigIsNilAtTest, runRootEntry, applyRootEntryEffect, initPkg]
+  | some pc =>
+    obtain ⟨c, is⟩ := pc
+    cases c <;> cases interfacesNil <;> cases recursive <;>
+      simp [Merge.rootInitializeEntryEffects, pkgConfigIsNilAtTest, runRootEntry, applyRootEntryEffect, initPkg]
+
+end Mockery.Config
